@@ -1,6 +1,6 @@
 """C08 / C01 / C03 / C04: one Nelder-Mead iteration (NelderMeadSimplexSolver._Step, `generations > 1` path) against
 the textbook update of Appendix A.5, for every simplex, every energy vector and every cost function, at fixed
-dimension N (instances N = 1, 2[, 3]: the body is loop-free at fixed N, so each instance is a complete proof for that
+dimension N (instances N = 1, 2, 3: the body is loop-free at fixed N, so each instance is a complete proof for that
 dimension; the dimension itself is not quantified -- stated in the evidence).
 
 Abstract callables:
@@ -209,7 +209,7 @@ def _nm(h, N, adaptive):
     h.cover('expansion', 'c', c=expand)
 
 
-for _N in (1, 2):
+for _N in (1, 2, 3):
     for _ad in (False, True):
         contract('C08/NM._Step/N=%d,%s' % (_N, 'adaptive' if _ad else 'standard'), ['C08', 'C01', 'C03', 'C04', 'C06', 'C02'],
                  SO + '::NelderMeadSimplexSolver._Step', native=False,
